@@ -74,3 +74,119 @@ func VH_C18_complement_len() {
 	}
 	vObserve("n", n)
 }
+
+// ---- (b) Match, (c) Search -------------------------------------------------------------
+
+func vLower(c byte) byte { return byte(vIte(vAnd('A' <= c, c <= 'Z'), int(c)+32, int(c))) }
+
+// vMatches: sequence byte s is matched by query byte q under IUPAC semantics (both letters: the
+// sequence letter's base set is contained in the query letter's); a non-alphabet query byte
+// matches only itself (case-insensitively, as the sequence and query are lower-cased).
+func vMatches(q, s byte) bool {
+	qs, ss := vBaseSet(q), vBaseSet(s)
+	// base-set inclusion on 4-bit masks
+	sub := true
+	for k := 0; k < 16; k++ {
+		for j := 0; j < 16; j++ {
+			if j&^k != 0 {
+				sub = vAnd(sub, !vAnd(qs == k, ss == j))
+			}
+		}
+	}
+	letters := vAnd(qs != 0, vAnd(ss != 0, sub))
+	literal := vAnd(qs == 0, vLower(q) == vLower(s))
+	return vOr(letters, literal)
+}
+
+//verif:harness prop=C18 quick=3 thorough=6 merge=concrete timeout=1500
+//verif:bounds Match: query of 1 (quick) / 1..2 (thorough) symbolic bytes (all 256 values), sequence of 1..3 symbolic bytes over the IUPAC alphabet (either case) or equal to a non-letter query byte: every reported segment is a match of the query width, segments ascend without overlap, and every match position overlaps a reported segment
+//verif:assume regexp: fixed-width class model of the pattern Match builds (real regexp/syntax is not interpreted); a query byte that reaches the pattern unescaped and is a metacharacter other than `(` is cut
+func VH_C18_match() {
+	sh := vShard(3 + 3*vTier())
+	qn := 1 + sh/3
+	sn := 1 + sh%3
+	q := vBytes("q", qn)
+	s := vBytes("s", sn)
+	for _, c := range s {
+		// IUPAC letters, or a copy of the first query byte (so that a literal query can occur);
+		// what a letter query does with a non-letter sequence byte is not stated by C18
+		vAssume(vOr(vBaseSet(c) != 0, vAnd(vBaseSet(q[0]) == 0, vLower(c) == vLower(q[0]))))
+	}
+	for _, c := range q {
+		vAssume(vAnd(c != '\n', c < 128)) // `.` does not match a newline; non-ASCII bytes are cut by ToLower anyway
+	}
+	var segs []Segment
+	p := vPanics(func() { segs = Match(New(nil, nil, s), New(nil, nil, q)) })
+	vAssert("match-never-panics", !p)
+	if p {
+		return
+	}
+	vCover("matched")
+	at := func(i int) bool { // the query matches at position i
+		ok := true
+		for j := 0; j < qn; j++ {
+			ok = vAnd(ok, vMatches(q[j], s[i+j]))
+		}
+		return ok
+	}
+	last := 0
+	for _, sg := range segs {
+		i := sg[0]
+		vAssert("segment-width", sg[1] == i+qn)
+		vAssert("segments-ascend-without-overlap", i >= last)
+		vAssert("segment-is-a-match", at(i))
+		last = sg[1]
+	}
+	for i := 0; i+qn <= sn; i++ {
+		covered := false
+		for _, sg := range segs {
+			covered = vOr(covered, vAnd(sg[0] < i+qn, i < sg[1]))
+		}
+		vAssert("every-match-is-reported-or-overlaps-one", vImplies(at(i), covered))
+	}
+	vObserve("n", len(segs))
+}
+
+//verif:harness prop=C18 quick=3 thorough=6 merge=concrete timeout=1500
+//verif:bounds Search: sequence of 2..4 (quick) / 2..5 (thorough) symbolic bytes over {a,A,c,C} and query of 1..2 symbolic bytes over the same alphabet: the result is the ascending list of all (overlapping) case-insensitive occurrences
+//verif:assume index/suffixarray: Lookup returns all occurrence offsets in an unspecified order (modelled: descending)
+func VH_C18_search() {
+	sh := vShard(3 + 3*vTier())
+	sn := 2 + sh%(3+vTier())
+	qn := 1 + sh/(3+vTier())%2
+	alpha := func(name string, n int) []byte {
+		p := make([]byte, n)
+		for i := range p {
+			p[i] = "aAcC"[vIntIn(name+string(rune('0'+i)), 0, 3)]
+		}
+		return p
+	}
+	s, q := alpha("s", sn), alpha("q", qn)
+	segs := Search(New(nil, nil, s), New(nil, nil, q))
+	vCover("searched")
+	occ := func(i int) bool {
+		ok := true
+		for j := 0; j < qn; j++ {
+			ok = vAnd(ok, vLower(s[i+j]) == vLower(q[j]))
+		}
+		return ok
+	}
+	total := 0
+	for i := 0; i+qn <= sn; i++ {
+		total += vIte(occ(i), 1, 0)
+	}
+	vAssert("all-occurrences-and-only-those", len(segs) == total)
+	prev := -1
+	for _, sg := range segs {
+		vAssert("ascending", sg[0] > prev)
+		vAssert("occurrence-width", sg[1] == sg[0]+qn)
+		sel := false
+		for i := 0; i+qn <= sn; i++ {
+			sel = vOr(sel, vAnd(sg[0] == i, occ(i)))
+		}
+		vAssert("is-an-occurrence", sel)
+		prev = sg[0]
+	}
+	vAssert("arguments-unchanged", vAnd(len(s) == sn, len(q) == qn))
+	vObserve("n", len(segs))
+}
